@@ -243,8 +243,10 @@ pub fn render_to_string_stream(
                 // over a wait point causing potential deadlocks.
                 let mut pending_futures = futures.take();
                 sycamore_futures::spawn_local_scoped(async move {
-                    while let Some(fragment) = pending_futures.next().await {
+                    while let Some((fragment, sent)) = pending_futures.next().await {
                         tx.send(fragment).await.unwrap();
+                        // Only now may the fragments of the child boundaries follow.
+                        sent.set(true);
 
                         // There can be more futures now. Add them to pending_futures.
                         pending_futures.extend(futures.take());
